@@ -9,7 +9,7 @@
   Model (PW/Model/SliceByPlane.lean):
     `slicedByPlane pl ⟨vs, closed⟩`   Polyline(vs, closed).sliced_by_plane(pl)  — code-shaped: roll + append for a closed
                                        polyline, then transition indices / vsplit components / component signs / the
-                                       three raises / prepend + append; rows are `Option (V3 K)` (`none` = NaN row)
+                                       three raises / prepend + append with the local `intersection_with_plane` (= `crossing`)
     `sliceOpenRuns pl vs`             slice_open_polyline_by_plane(vs, pl)
     `sliceSpec pl closed vs`          the specification (function), `OpenSlice` / `ClosedSlice` the specification (relation)
 -/
@@ -104,9 +104,11 @@ theorem isect_den (pl : Plane K) (a b : V3 K) : (b - a).dot pl.n = pl.signedDist
   simp only [signedDistance, signedDistanceEq, equation, eqNormal, eqOffset, V3.dot_def, V3.sub_x, V3.sub_y, V3.sub_z]
   ring
 
-/-- **No NaN is ever produced**: on a segment whose end points are strictly on opposite sides,
-    `intersect_segment_with_plane` takes the in-range branch (`t` is neither `< 0` nor `> 1`, the denominator is not zero)
-    and returns the crossing point of the specification. -/
+/-- The library's `intersect_segment_with_plane` (used by the slicer before /repo f9870c4, no longer since): in exact
+    arithmetic, on a segment whose end points are strictly on opposite sides, it takes the in-range branch (`t` is neither
+    `< 0` nor `> 1`, the denominator is not zero) and returns the same crossing point.  Under rounding its independently
+    computed `t` can fall outside `[0,1]` for an end point within rounding error of the plane (NaN row) — which is why the
+    slicer now interpolates with the signed distances that decided the signs (`crossing`). -/
 theorem crossSeg_eq_crossing (pl : Plane K) (a b : V3 K)
     (h : (pl.signedDistance a < 0 ∧ 0 < pl.signedDistance b) ∨ (0 < pl.signedDistance a ∧ pl.signedDistance b < 0)) :
     (crossSeg pl) a b = some ((crossing pl) a b) := by
@@ -129,25 +131,23 @@ theorem crossSeg_eq_crossing (pl : Plane K) (a b : V3 K)
 
 /-! ### model = specification -/
 
-/-- what `Polyline.sliced_by_plane` returns when the specification yields `r`: the same rows (none of them NaN) as an
-    open polyline, or the same exception -/
-abbrev lift (r : Res (List (V3 K))) : Res (List (Option (V3 K)) × Bool) := liftRes some r
+/-- what `Polyline.sliced_by_plane` returns when the specification yields `r`: the same rows as an open polyline, or
+    the same exception -/
+def lift (r : Res (List (V3 K))) : Res (List (V3 K) × Bool) :=
+  match r with
+  | .ok v => .ok (v, false)
+  | .error e => .error e
 
-private theorem hin (pl : Plane K) : ∀ a b, isFront pl.sign a = false → pl.sign a ≠ 0 → isFront pl.sign b = true →
-    (crossSeg pl) a b = some ((crossing pl) a b) := by
-  intro a b ha h0 hb
-  exact crossSeg_eq_crossing pl a b (Or.inl ⟨behind_of_not_front_not_on pl a ha h0, (front_iff pl b).mp hb⟩)
-
-private theorem hout (pl : Plane K) : ∀ a b, isFront pl.sign a = true → isFront pl.sign b = false → pl.sign b ≠ 0 →
-    (crossSeg pl) a b = some ((crossing pl) a b) := by
-  intro a b ha hb h0
-  exact crossSeg_eq_crossing pl a b (Or.inr ⟨(front_iff pl a).mp ha, behind_of_not_front_not_on pl b hb h0⟩)
+theorem liftRes_id (r : Res (List (V3 K))) : liftRes id r = lift r := by
+  cases r <;> simp [liftRes, lift]
 
 /-- **C06, refinement.**  For every plane and every vertex list (0…n vertices, repeats allowed), open or closed:
     the code-shaped model of `Polyline.sliced_by_plane` equals the specification — same rows, same exception class. -/
 theorem C06_spec (pl : Plane K) (closed : Bool) (vs : List (V3 K)) :
-    slicedByPlane pl ⟨vs, closed⟩ = lift (sliceSpec pl closed vs) :=
-  slicedByPlaneG_eq_spec pl.sign some (crossSeg pl) (crossing pl) some id (fun _ => rfl) (hin pl) (hout pl) closed vs
+    slicedByPlane pl ⟨vs, closed⟩ = lift (sliceSpec pl closed vs) := by
+  rw [← liftRes_id]
+  exact slicedByPlaneG_eq_spec pl.sign id (crossing pl) (crossing pl) id id (fun _ => rfl)
+    (fun _ _ _ _ _ => rfl) (fun _ _ _ _ _ => rfl) closed vs
 
 theorem C06_open_spec (pl : Plane K) (vs : List (V3 K)) :
     slicedByPlane pl ⟨vs, false⟩ = lift (sliceSpec pl false vs) := C06_spec pl false vs
@@ -158,21 +158,33 @@ theorem C06_closed_spec (pl : Plane K) (vs : List (V3 K)) :
 
 /-- the function `slice_open_polyline_by_plane` itself -/
 theorem C06_open_function_spec (pl : Plane K) (vs : List (V3 K)) :
-    sliceOpenRuns pl vs = (match sliceSpec pl false vs with
-      | .ok v => .ok (v.map some)
-      | .error e => .error e) := by
+    sliceOpenRuns pl vs = sliceSpec pl false vs := by
   unfold sliceOpenRuns sliceSpec sliceSpecG
-  rw [sliceOpenRunsG_eq_span, sliceSpanG_map pl.sign some (crossSeg pl) (crossing pl) some id (fun _ => rfl) (hin pl) (hout pl)]
-  simp only [Bool.false_eq_true, if_false]
-  cases sliceSpanG pl.sign (crossing pl) id vs <;> rfl
+  rw [sliceOpenRunsG_eq_span]
+  simp
+
+/-- The same kernel run on observed signs / signed distances (`slice.given`, used for inputs within rounding error of
+    the plane) refines the same specification, read with those signs … -/
+theorem C06_given_spec (closed : Bool) (gs : List (GivenVertex K)) :
+    slicedByPlaneGiven closed gs =
+      lift (sliceSpecG GivenVertex.sign GivenVertex.crossing GivenVertex.v closed gs) := by
+  rw [← liftRes_id]
+  exact slicedByPlaneG_eq_spec GivenVertex.sign id GivenVertex.crossing GivenVertex.crossing GivenVertex.v
+    GivenVertex.v (fun _ => rfl) (fun _ _ _ _ _ => rfl) (fun _ _ _ _ _ => rfl) closed gs
+
+/-- … and when the observed values are the ones the model computes, it *is* `Polyline.sliced_by_plane`. -/
+theorem C06_given_consistent (pl : Plane K) (closed : Bool) (vs : List (V3 K)) :
+    slicedByPlaneGiven closed (vs.map (annotate pl)) = slicedByPlane pl ⟨vs, closed⟩ := by
+  rw [C06_given_spec, C06_spec, sliceSpecG_natural]
+  rfl
 
 /-- the code-shaped slicer (transition indices, `vsplit`, component signs) and its span-shaped twin
     (`takeWhile`/`dropWhile`) are the same function -/
 theorem C06_runs_eq_span (pl : Plane K) (vs : List (V3 K)) : sliceOpenRuns pl vs = sliceOpenSpan pl vs :=
-  sliceOpenRunsG_eq_span pl.sign (crossSeg pl) some vs
+  sliceOpenRunsG_eq_span pl.sign (crossing pl) id vs
 
 theorem C06_runs_eq_span_polyline (pl : Plane K) (p : Polyline K) : slicedByPlaneSpan pl p = slicedByPlane pl p :=
-  slicedByPlaneSpanG_eq pl.sign (crossSeg pl) some p.closed p.v
+  slicedByPlaneSpanG_eq pl.sign (crossing pl) id p.closed p.v
 
 /-! ### the specification function computes the declarative relation -/
 
@@ -200,7 +212,7 @@ theorem C06_error_is_ValueError (pl : Plane K) (p : Polyline K) (e : Err) (h : s
     e = .ValueError := by
   obtain ⟨vs, closed⟩ := p
   rw [C06_spec] at h
-  unfold lift liftRes at h
+  unfold lift at h
   cases hs : sliceSpec pl closed vs with
   | ok v => rw [hs] at h; cases h
   | error e' =>
@@ -212,7 +224,7 @@ theorem C06_error_is_ValueError (pl : Plane K) (p : Polyline K) (e : Err) (h : s
 theorem C06_refuses_iff (pl : Plane K) (closed : Bool) (vs : List (V3 K)) :
     slicedByPlane pl ⟨vs, closed⟩ = .error .ValueError ↔ ¬ ∃ out, SliceRel pl.sign (crossing pl) id closed vs out := by
   rw [C06_spec, ← sliceSpecG_error_iff]
-  unfold lift liftRes sliceSpec
+  unfold lift sliceSpec
   cases sliceSpecG pl.sign (crossing pl) id closed vs with
   | ok v => simp
   | error e => simp
@@ -314,34 +326,51 @@ theorem C06_refuses_two_runs_closed (pl : Plane K) (P X Y : List (V3 K)) (x y : 
 
 /-! ### what is returned -/
 
-/-- a successful call returns the rows of the specification, none of them NaN, as an *open* polyline -/
-theorem C06_model_ok (pl : Plane K) (closed : Bool) (vs : List (V3 K)) (rows : List (Option (V3 K))) (c : Bool)
+/-- a successful call returns the rows of the specification as an *open* polyline -/
+theorem C06_model_ok (pl : Plane K) (closed : Bool) (vs : List (V3 K)) (rows : List (V3 K)) (c : Bool)
     (h : slicedByPlane pl ⟨vs, closed⟩ = .ok (rows, c)) :
-    ∃ out, sliceSpec pl closed vs = .ok out ∧ rows = out.map some ∧ c = false := by
+    sliceSpec pl closed vs = .ok rows ∧ c = false := by
   rw [C06_spec] at h
-  unfold lift liftRes at h
+  unfold lift at h
   cases hs : sliceSpec pl closed vs with
   | error e => rw [hs] at h; cases h
   | ok out =>
     rw [hs] at h
     cases h
-    exact ⟨out, rfl, rfl, rfl⟩
+    exact ⟨rfl, rfl⟩
 
-theorem C06_is_open (pl : Plane K) (p : Polyline K) (rows : List (Option (V3 K))) (c : Bool)
+theorem C06_is_open (pl : Plane K) (p : Polyline K) (rows : List (V3 K)) (c : Bool)
     (h : slicedByPlane pl p = .ok (rows, c)) : c = false := by
   obtain ⟨vs, closed⟩ := p
-  obtain ⟨_, _, _, hc⟩ := C06_model_ok pl closed vs rows c h
-  exact hc
+  exact (C06_model_ok pl closed vs rows c h).2
 
-/-- all returned coordinates are finite: no row is a NaN row -/
-theorem C06_rows_finite (pl : Plane K) (p : Polyline K) (rows : List (Option (V3 K))) (c : Bool)
-    (h : slicedByPlane pl p = .ok (rows, c)) : ∀ r ∈ rows, ∃ q, r = some q := by
-  obtain ⟨vs, closed⟩ := p
-  obtain ⟨out, _, hr, _⟩ := C06_model_ok pl closed vs rows c h
-  intro r hr'
-  rw [hr, List.mem_map] at hr'
-  obtain ⟨q, _, rfl⟩ := hr'
-  exact ⟨q, rfl⟩
+/-- **The added rows lie on the segment they come from** (so their coordinates are between those of two input vertices:
+    finite whenever the input is): the entry row is `nb + t (first − nb)` with `0 ≤ t < 1`, the exit row is
+    `last + t (nb − last)` with `0 < t ≤ 1`; `t = 0` resp. `1` is the neighbour itself (on the plane), otherwise `t` is the
+    crossing parameter `d_a/(d_a − d_b)`, strictly inside `(0,1)`. -/
+theorem entryPt_on_segment (pl : Plane K) (nb first : V3 K) (hnb : isFront pl.sign nb = false)
+    (hf : isFront pl.sign first = true) :
+    ∃ t, 0 ≤ t ∧ t < 1 ∧ entryPt pl.sign (crossing pl) id nb first = nb + V3.smul t (first - nb) := by
+  unfold entryPt
+  split_ifs with h0
+  · refine ⟨0, le_refl _, zero_lt_one, ?_⟩
+    ext <;> simp [V3.add_x, V3.add_y, V3.add_z, V3.smul_x, V3.smul_y, V3.smul_z]
+  · have h1 := behind_of_not_front_not_on pl nb hnb h0
+    have h2 := (front_iff pl first).mp hf
+    obtain ⟨ht0, ht1⟩ := crossing_in_unit _ _ (Or.inl ⟨h1, h2⟩)
+    exact ⟨_, le_of_lt ht0, ht1, rfl⟩
+
+theorem exitPt_on_segment (pl : Plane K) (last nb : V3 K) (hl : isFront pl.sign last = true)
+    (hnb : isFront pl.sign nb = false) :
+    ∃ t, 0 < t ∧ t ≤ 1 ∧ exitPt pl.sign (crossing pl) id last nb = last + V3.smul t (nb - last) := by
+  unfold exitPt
+  split_ifs with h0
+  · refine ⟨1, zero_lt_one, le_refl _, ?_⟩
+    ext <;> simp [V3.add_x, V3.add_y, V3.add_z, V3.smul_x, V3.smul_y, V3.smul_z, V3.sub_x, V3.sub_y, V3.sub_z]
+  · have h1 := behind_of_not_front_not_on pl nb hnb h0
+    have h2 := (front_iff pl last).mp hl
+    obtain ⟨ht0, ht1⟩ := crossing_in_unit _ _ (Or.inr ⟨h2, h1⟩)
+    exact ⟨_, ht0, le_of_lt ht1, rfl⟩
 
 /-- the row added at an end of the run lies on the plane -/
 theorem entryPt_on_plane (pl : Plane K) (nb first : V3 K) (hnb : isFront pl.sign nb = false)
@@ -433,7 +462,7 @@ around the end of the vertex list, both ends are crossings -/
 
 example :
     slicedByPlane (K := ℚ) ⟨⟨1/2, 0, 0⟩, ⟨1, 0, 0⟩⟩ ⟨[⟨1, 0, 0⟩, ⟨0, 0, 0⟩, ⟨0, 1, 0⟩, ⟨1, 1, 0⟩], true⟩
-      = .ok ([some ⟨1/2, 1, 0⟩, some ⟨1, 1, 0⟩, some ⟨1, 0, 0⟩, some ⟨1/2, 0, 0⟩], false) := by
+      = .ok ([⟨1/2, 1, 0⟩, ⟨1, 1, 0⟩, ⟨1, 0, 0⟩, ⟨1/2, 0, 0⟩], false) := by
   have key : sliceSpec (K := ℚ) ⟨⟨1/2, 0, 0⟩, ⟨1, 0, 0⟩⟩ true [⟨1, 0, 0⟩, ⟨0, 0, 0⟩, ⟨0, 1, 0⟩, ⟨1, 1, 0⟩]
       = .ok [⟨1/2, 1, 0⟩, ⟨1, 1, 0⟩, ⟨1, 0, 0⟩, ⟨1/2, 0, 0⟩] := by
     rw [C06_spec_ok_iff]
